@@ -134,6 +134,23 @@ func c11Command(e *core.Env) {
 			e.Violation("C11:command:"+strings.TrimPrefix(key, "C02:"), detail, cs, func() bool { k, _, _ := c02One(drv, cs.Body, cs.Cfg); return k == key })
 		}
 	}
+	// a journal with whole periods without any directive (days 0, 1, 9, 10 and 14 only)
+	var sparse []jr.Dir
+	for _, i := range []int{0, 1, 9, 10, 14} {
+		sparse = append(sparse, body[i])
+	}
+	for i, cfg := range cfgs {
+		if i%2 != 0 || !e.Take() {
+			continue
+		}
+		key, detail, _ := c02One(drv, sparse, cfg)
+		e.Count("evaluations")
+		e.Count("command_runs")
+		if key != "" {
+			cs := balCase{Body: sparse, Cfg: cfg}
+			e.Violation("C11:command:"+strings.TrimPrefix(key, "C02:")+":sparse", detail, cs, func() bool { k, _, _ := c02One(drv, cs.Body, cs.Cfg); return k == key })
+		}
+	}
 	// the same on a machine whose local time zone is east / west of UTC (journal dates and
 	// flag dates are calendar days; every 4th configuration)
 	saved := time.Local
